@@ -35,6 +35,7 @@ func c04X1(r *core.R) {
 				v.unknown("token@"+root.name, e.Node.Pos(), "`%s`: Encoder call / token kind written by hand that the rule does not enumerate", src(r.P.Fset, e.Call))
 			}
 			c04X1Root(r, &v, tbl, root, tr)
+			c04X1Handed(r, &v, root, tr)
 			written := map[string]*c04Emit{}
 			for i := range tr.emits {
 				em := tr.emits[i]
@@ -52,6 +53,7 @@ func c04X1(r *core.R) {
 			}
 		}
 	}
+	c04X1Standalone(r, &v, tbl)
 	v.emit(r)
 }
 
@@ -114,6 +116,22 @@ func c04X1Emit(r *core.R, v *c04Verdicts, root *c04Root, tr *c04Trace, em c04Emi
 	pos := em.ev.Node.Pos()
 	call := src(r.P.Fset, em.ev.Call)
 	tmpl := ""
+	if self, st, why := c04SelfDelegation(root, em); self {
+		c := "emit@" + root.name + " " + src(r.P.Fset, em.ev.Call.Args[0])
+		switch {
+		case strings.Contains(why, c04Broken):
+			v.bad(c, pos, "`%s` encodes the marshalled value as a whole: %s", call, strings.Replace(why, c04Broken, "", 1))
+		case why != "":
+			v.unknown(c, pos, "`%s` encodes the marshalled value as a whole: %s", call, why)
+		case em.method != "EncodeElement" || em.tmpl == nil:
+			v.unknown(c, pos, "`%s` encodes the marshalled value as a %s without the start element %s was handed: the element name is the type name of the conversion", call, c03Short(st), root.name)
+		case em.tmpl.kind == "unknown":
+			v.unknown(c, pos, "cannot resolve the element name of the start element in `%s`", call)
+		default:
+			v.ok(c, pos, "`%s` delegates to the tag-driven encoding of %s (no methods; the fields and tags of %s) under %s; which name that is for every caller is judged by root@%s and standalone@%s", call, c03Short(st), root.tname, em.tmpl.String(), root.name, root.tname)
+		}
+		return
+	}
 	if em.tmpl != nil {
 		switch em.tmpl.kind {
 		case "const":
@@ -148,7 +166,7 @@ func c04X1Emit(r *core.R, v *c04Verdicts, root *c04Root, tr *c04Trace, em c04Emi
 			v.unknown(c, pos, "%s", en.Err)
 			bad = true
 		case en.Name != xf.Name:
-			v.bad(c, pos, "`%s` emits <%s> (%s) but %s.%s is read back from <%s> (tag `%s`): xml.Unmarshal of the written document leaves the field empty (the streaming scanner matches names case-insensitively, so at best the two decoders disagree)",
+			v.bad(c, pos, "`%s` emits <%s> (%s) but %s.%s is read back from <%s> (tag `%s`): xml.Unmarshal of the written document leaves the field empty, and the streaming scanner, which matches element names exactly, skips the element",
 				call, en.Name, en.Why, c03Short(owner), xf.Var.Name(), xf.Name, c03TagOf(xf))
 			bad = true
 		default:
